@@ -582,7 +582,10 @@ func c11Store(x *X) {
 		// BuildNameToCertificate is exported, so WalkInlined does not enter it: its own writes are not listed
 		x.defStrList("setCertificatesOrder", order)
 	}
-	if fd := x.funcDecl(c11Dir, "certstore", "BuildNameToCertificate"); fd != nil {
+	// found by its (exported) method name, whatever the receiver type is called
+	if fd := x.anyFuncDecl(c11Dir, "BuildNameToCertificate"); fd == nil {
+		x.fail("cert: method BuildNameToCertificate not found")
+	} else {
 		fl := &c11Flow{x: x, env: map[string]ast.Expr{}}
 		n, lowered := 0, 0
 		fl.walk(fd, func(nd ast.Node) bool {
